@@ -280,6 +280,9 @@ func judge(r *vrun.Run, cs caseSpec, res *result) {
 	if cs.Launcher != "" {
 		r.Obs("cases_whose_executable_was_removed_before_the_stop", 1)
 	}
+	if cs.DoubleStart {
+		r.Obs("cases_started_by_two_concurrent_Start_calls", 1)
+	}
 	if res.StartInProgressAtStop {
 		r.Obs("cases_stopped_while_Start_was_still_in_progress", 1)
 	}
